@@ -428,6 +428,29 @@ def reference(case):
     return [res, values_by_path(wf), sorted(t for t, a in nodes.CALLS)]
 
 
+def shipped_composites(root, exmap):
+    """[(path, node, [(label, child)])] for the composites of the LOCAL tree that cross a boundary (preorder; nothing
+    below a shipped node), with the children they hold before the run"""
+    from pyiron_workflow.nodes.composite import Composite
+    out = []
+
+    def go(node, path):
+        code = ex_code(node.executor, exmap)
+        crosses = code[0] != 0 and code[1] in (1, 2, 4, 5, 7)
+        if crosses and isinstance(node, Composite):
+            out.append((path, node, list(node.children.items())))
+        if not crosses and isinstance(node, Composite):
+            for lab, ch in node.children.items():
+                go(ch, path + "/" + lab)
+    go(root, "/" + root.label)
+    return out
+
+
+def orphans(shipped):
+    return [[path, [[lab, 1 if ch.parent is None else 0, 1 if ch.detached_parent_path is None else 0] for lab, ch in kids]]
+            for path, node, kids in shipped]
+
+
 def exmap_of(placed):
     m = {}
     for path, node, spec, ex in placed:
@@ -458,11 +481,12 @@ def run_flow(case):
         case["_heap"] = None if heap is None else heap[0]
         shipped = [p for p, sp in crossing(case)]
         snap = snapshot(wf, [pl for pl in placed if not any(pl[0].startswith(q + "/") for q in shipped)])
+        old_kids = shipped_composites(wf, exmap)
         probes = []
         order = case.get("order", [])
         do_probe = bool(case.get("probe")) and not real
         res = None
-        with nodes.poll_hook(make_hook(wf, order, probes, do_probe)) if not real else _null():
+        with nodes.poll_hook(make_hook(wf, order, probes, do_probe)) if not real else _deadline():
             try:
                 r = wf.run()
                 if isinstance(r, cf.Future):
@@ -483,7 +507,7 @@ def run_flow(case):
             except Exception as e:      # noqa
                 res = ["err", type(e).__name__]
         lost = check_snapshot(wf, snap)
-        obs = {"model": [render(wf, exmap), sorted(probes)], "res": res, "ref": ref, "values": values_by_path(wf),
+        obs = {"model": [render(wf, exmap), sorted(probes), orphans(old_kids)], "res": res, "ref": ref, "values": values_by_path(wf),
                "lost": lost, "calls": sorted(t for t, a in nodes.CALLS), "pending": len(c.pending()),
                "after": run_after(case, wf, placed)}
         return obs
@@ -492,11 +516,26 @@ def run_flow(case):
             p.shutdown(wait=True, cancel_futures=True)
 
 
-class _null:
+class _deadline:
+    """real pools: keep the parent's real polling sleep, but give up (RuntimeError) when nothing ends in time"""
+    def __init__(self, seconds=25.0):
+        self.seconds = seconds
+
     def __enter__(self):
+        import time
+        import pyiron_workflow.nodes.composite as comp
+        self.comp, self.old = comp, comp.sleep
+        t0 = time.time()
+
+        def sleep(dt):
+            if time.time() - t0 > self.seconds:
+                raise RuntimeError("deadline: children still running")
+            self.old(dt)
+        comp.sleep = sleep
         return self
 
     def __exit__(self, *a):
+        self.comp.sleep = self.old
         return False
 
 
@@ -636,9 +675,10 @@ def model_term(case):
     heap = case.get("_heap")
     if heap is None or not modelled(case):
         return None
+    mode = os.environ.get("VERIF_C10_MODE", "AsWritten")     # Repaired: only to validate the proposed patch in a scratch worktree
     if case["kind"] == "flow":
-        return f"flow_obs AsWritten {heap} 0%nat {cb(bool(case.get('probe')) and not is_real(case))}"
-    return f"cycle_obs AsWritten {heap} 0%nat {cn(case['_target'])} {cl(op_coq(o) for o in case['ops'])}"
+        return f"flow_obs {mode} {heap} 0%nat {cb(bool(case.get('probe')) and not is_real(case))}"
+    return f"cycle_obs {mode} {heap} 0%nat {cn(case['_target'])} {cl(op_coq(o) for o in case['ops'])}"
 
 
 def modelled(case):
@@ -801,6 +841,15 @@ def violations(case, obs):
                     out.append(("after-rerun", f"running the workflow again raises {a[1]}", None))
                 elif a[2] != ref[1]:
                     out.append(("after-rerun", "the second run's outputs differ from the all-local run", None))
+        merged_ok = {p for p, kids in obs["model"][2]}
+        for p, kids in obs["model"][2]:
+            node_r = find_rendered(tree, root_path, p)
+            if node_r is None or node_r[2][1]:
+                continue            # the job failed: nothing was merged, the children are still the old ones
+            now = {k[0] for k in node_r[8]}
+            for lab, par_none, det_none in kids:
+                if not par_none:
+                    out.append(("stale-child", f"a child object {lab} that {p} no longer holds still names it as parent", p))
         failed = []
         collect_failed(tree, root_path, failed)
         for p in failed:
@@ -859,6 +908,15 @@ def violations(case, obs):
     out.extend(sv)
     out.sort(key=lambda v: v[0] in LOW)
     return out
+
+
+def find_rendered(r, path, target):
+    if path == target:
+        return r
+    for k in r[8]:
+        if target == path + "/" + k[0] or target.startswith(path + "/" + k[0] + "/"):
+            return find_rendered(k, path + "/" + k[0], target)
+    return None
 
 
 def collect_failed(r, path, acc):
